@@ -114,6 +114,14 @@ func c17Harness(h *gwHarness, sc c17Scenario) explore.Harness {
 					if sc.slow {
 						vrt.Sleep(10 * time.Second) // the reader has caught up long before
 					}
+					for i, u := range sc.up {
+						for _, x := range u {
+							if x == "quiet11s" && first+i < len(env.ups) {
+								vrt.Recv(env.ups[first+i].doneC) // the client stays while the service is quiet
+								break
+							}
+						}
+					}
 					vrt.WaitIdle() // every emitted event has been processed (or is stuck for good)
 					writeClientFrame(cli, clientMsg("connection_terminate", "", nil))
 				})
@@ -230,6 +238,8 @@ func c17ConnVerdict(h *gwHarness, sc c17Scenario, srv *vrt.Conn, c int) string {
 				}
 			case "errorpayload":
 				want = append(want, map[string]interface{}{"errors": "upstream says no"})
+			case "errorlist":
+				want = append(want, map[string]interface{}{"errors": "upstream list error"})
 			}
 		}
 		g := got[id]
@@ -307,7 +317,7 @@ var c17Subs = []string{
 
 func c17Scenarios(tier string) []c17Scenario {
 	var out []c17Scenario
-	seqs := [][]upAction{{"event"}, {"event", "event"}, {"errorpayload"}, {"event", "errorpayload"}, {"errorpayload", "event"}, {"event", "complete"}, {"event", "event", "complete"}, {"dataerrors"}, {"event", "dataerrors"}}
+	seqs := [][]upAction{{"event"}, {"event", "event"}, {"event", "quiet11s", "event"}, {"errorlist", "event"}, {"event", "errorlist", "event"}, {"errorpayload"}, {"event", "errorpayload"}, {"errorpayload", "event"}, {"event", "complete"}, {"event", "event", "complete"}, {"dataerrors"}, {"event", "dataerrors"}}
 	if tier == "thorough" {
 		seqs = append(seqs, []upAction{"event", "event", "event"}, []upAction{"event", "errorpayload", "event"}, []upAction{"event", "error"}, []upAction{"event", "disconnect"})
 	}
@@ -381,7 +391,7 @@ func c17Scenarios(tier string) []c17Scenario {
 func init() {
 	Specs["C17"] = &Spec{
 		ID: "C17",
-		Rule: "scenario = (1-2 subscriptions on one connection (also two connections in sequence on one gateway) out of 9 subscription operations (one with a per-subscription variable for a field of another service) whose selection needs 0, 1 or 2 other services, lists, value types, aliases, __typename; upstream event history per subscription over {event, error payload, event with data and errors, complete, the previous event again after every value of the services' data has changed} " +
+		Rule: "scenario = (1-2 subscriptions on one connection (also two connections in sequence on one gateway) out of 9 subscription operations (one with a per-subscription variable for a field of another service) whose selection needs 0, 1 or 2 other services, lists, value types, aliases, __typename; upstream event history per subscription over {event, error payload, error message with a list payload, 11 s of silence, event with data and errors, complete, the previous event again after every value of the services' data has changed} " +
 			"of length <=3; planner plain/cached); the real subscriptionHandler / subscriptionEntry / MultiOpQueryer.Subscribe (rewritten) run over scheduler-aware pipes against a gobwas upstream and evaluating in-memory services; " +
 			"every schedule with <=1 preemption (two subscriptions: bound 0 quick, 1 thorough) is executed; the client terminates once the system is idle; plus a slow reader (16-byte receive buffer, nothing read from 0 to 6.5 s while events arrive and the 4 s heartbeat comes due, terminate at 10 s); oracle at the client's frame parser: per subscription id the sequence of data payloads " +
 			"== reference evaluation of the client operation on each emitted event, in emission order, exactly once, helpers absent, never under another id, upstream error payloads arrive as errors; non-trivial = >1 execution",
